@@ -45,3 +45,47 @@ Section Table.
     eexists. split; reflexivity.
   Qed.
 End Table.
+
+Section Arguments.
+  Variables (U : UData) (cs : changeset) (kr : KillRing.killring) (hist : list str) (hidx : nat)
+            (saved : str * nat) (lay : Render.layout) (prompt : str) (ps : Render.pos2)
+            (lc : cmd) (lcs : option char_search) (inp : istream) (out : list (list N)) (obs : list observation)
+            (txt : str) (c0 : N) (p cap : nat) (g : bool).
+  Let b : lb := mkLb (c0 :: txt) p cap g.
+
+  (* a negative argument runs the opposite command *)
+  Theorem neg_arg_flips :
+    map (fun row : key * cmd =>
+           cmd_of (emacs U (cfg_plain Emacs) 4 (fst row)
+                         (with_arg (plain_state b cs kr hist hidx saved lay prompt ps IMInsert lc lcs inp out obs) (-3))))
+        doc_emacs_neg3
+    = map (fun row => Some (snd row)) doc_emacs_neg3.
+  Proof. vm_compute. reflexivity. Qed.
+
+  Theorem pos_arg_counts :
+    map (fun row : key * cmd =>
+           cmd_of (emacs U (cfg_plain Emacs) 4 (fst row)
+                         (with_arg (plain_state b cs kr hist hidx saved lay prompt ps IMInsert lc lcs inp out obs) 7)))
+        doc_emacs_pos7
+    = map (fun row => Some (snd row)) doc_emacs_pos7.
+  Proof. vm_compute. reflexivity. Qed.
+
+  Theorem vi_arg_counts :
+    map (fun row : key * cmd =>
+           cmd_of (vi_command U (cfg_plain Vi) 4 (fst row)
+                              (with_arg (plain_state b cs kr hist hidx saved lay prompt ps IMCommand lc lcs inp out obs) 5)))
+        doc_vi_command_5
+    = map (fun row => Some (snd row)) doc_vi_command_5.
+  Proof. vm_compute. reflexivity. Qed.
+End Arguments.
+
+Section Decoder.
+  Variables (U : UData) (cfg : config) (s : est) (rest : list (list inchar)) (sea : bool).
+
+  (* every standard encoding decodes to its key and consumes exactly its characters, whatever
+     follows in later chunks, whatever the timeout configuration *)
+  Theorem decode_roundtrip :
+    map (fun row : list N * key => decode_one (with_cc U) cfg sea s rest (fst row)) doc_encodings
+    = map (fun row => Some (snd row, [], rest)) doc_encodings.
+  Proof. vm_compute. reflexivity. Qed.
+End Decoder.
